@@ -41,6 +41,9 @@ SPECIAL_TITLES = [
     "daddy puppy mummy", "sense tests sensors", "bell bela pikk", "radar level civic",
     "!!!", "-- --", "???", "",          # titles without any word: they take a position in the store and in the index all the same
     "1\u00bdin pipe", "5mm\u00b2x50m cable", "a\u0663\u0664\u0665b", "\uff30\uff33\uff15pro",     # non-ASCII numerals inside words
+    "\u039a\u039f\u03a3\u039c\u039f\u03a3 travel", "\u039f\u0394\u03a5\u03a3\u03a3\u0395\u0399\u0391", "\u0130stanbul tea",      # capitals whose lower case depends on context
+    "0000000000000417 part", "hahahahahahahaha", "nananananana batman",                                     # long words of few distinct grams
+    "macOS Big Sur on iPad", "eBay Angebote auf iOS", "3D TV 4K", "iPhone case tvOS",        # capitals only inside words
     "usb\tcharger cable", "line\nbreak title", "next\u0085line here", "a\u001fb unit",      # control characters between words
     "node.js guide", "AT&T sim", "Wi\u2011Fi router", "hand\u2013made soap", "3.5g modem", "a/b test", "rock&roll", "co_op mode",
     "ps 4 console", "mp-3 player", "ab c", "a bc def", "electroencephalographic otorhinolaryngological kit", "Fried rice", "Dairy farm",
@@ -416,6 +419,8 @@ def gen_split_join_cases(lang, rnd, titles, toks, ncases):
             if len(w) >= 3:
                 for k in range(1, len(w)):
                     sep = rnd.choice([[32], [45], [32], [44], [46], [9]])
+                    if rnd.random() < 0.25:
+                        c.search(sid, w[:k] + sep, rep=1)          # the user typed the first half and the separator a moment ago
                     c.search(sid, w[:k] + sep + w[k:], expect=dict(prop="C14", kind="split", rid=rid, widx=wi + 1))
         # the word as spelled in the title, one separator typed inside it (also next to a symbol inside the word)
         for wi, w in enumerate(ws):
@@ -931,7 +936,7 @@ def gen_ranking_cases(lang, rnd, ncases):
             if " " in f:
                 continue
             letters = [ch for ch in script_letters(lang) if ch not in f]
-            content = f + rand_word(rnd, letters, 2, 4)
+            content = f + rand_word(rnd, letters, 2, 4) if k % 4 else f + rand_word(rnd, letters, 17, 24)   # every fourth: a very long content word
             other = rand_word(rnd, letters, 4, 6)
             c = Case("C08", "function-table", lang=lang)
             sid = c.new_store(lang)
@@ -1448,10 +1453,15 @@ def gen_prepare_cases(lang, rnd, titles, toks, ncases):
                 c.op(op="prepare", sid=sid, q=cps(q), size=size)
         if k % 3 == 1:
             # the store is cleared and a smaller / other catalogue arrives: positions start again at 0
+            # (asked right before and typed on right after; half of the time the new catalogue has as many records as the old)
+            qa = random_query(lang, rnd, recs, toks)[:3] or "a"
+            c.op(op="prepare", sid=sid, q=cps(qa), size=2)
             c.op(op="clear", sid=sid)
-            recs2 = [rnd.choice(base + titles[:5]) for _ in range(rnd.randint(1, 4))]
+            recs2 = [rnd.choice(base + titles[:5]) for _ in range(len(recs) if rnd.random() < 0.5 else rnd.randint(1, 4))]
             for i, t in enumerate(recs2):
                 c.add(sid, 900 + i, t, rnd.randint(0, 100))
+            c.op(op="prepare", sid=sid, q=cps(qa + rnd.choice(script_letters(lang))), size=2)
+            c.op(op="prepare", sid=sid, q=cps(qa + " " + (recs2[0].split() or ["x"])[0][:3]), size=2)
             for _q in range(3):
                 c.op(op="prepare", sid=sid, q=cps(random_query(lang, rnd, recs2, toks)), size=rnd.randint(1, 3))
             c.op(op="prepare", sid=sid, q=cps(random_query(lang, rnd, recs, toks)), size=3)
@@ -1930,6 +1940,20 @@ def gen_gate_cases(rnd, tier):
             if not v:
                 continue
             c.op(op="gate", r=w, q=v, qfin=rnd.random() < 0.4, **({"lang": rnd.choice(LANGS)} if k % 3 else {}))
+        cases.append(c)
+    # a long-lived thread: many hundreds of gate calls on one thread-local instance, the same few pairs coming back after
+    # 250-260 and 510-520 other calls (stamps and counters kept in a byte come round)
+    for rep, probe in enumerate([("bob", "bob"), ("bob", "bib"), ("obo", "bob")] if tier == "quick" else [("bob", "bob"), ("bob", "bib"), ("obo", "bob"), ("bobo", "bob")] * 3):
+        c = Case("C17", "gate-long-lived")
+        pa, pb = [ord(x) for x in probe[0]], [ord(x) for x in probe[1]]
+        filler = [([ord(x) for x in a], [ord(x) for x in b2]) for a, b2 in (("did", "ddi"), ("idi", "did"), ("did", "did"))]   # no letter of the probe
+        # the probe comes back after every distance from 250 to 260 calls, and once after about twice that
+        for gap in list(range(249, 260)) + [rnd.randint(505, 515)]:
+            c.op(op="gate", r=pa, q=pb, qfin=True)
+            for _k in range(gap):
+                a, b2 = rnd.choice(filler)
+                c.op(op="gate", r=a, q=b2, qfin=True)
+        c.op(op="gate", r=pa, q=pb, qfin=True)
         cases.append(c)
     return cases
 
